@@ -16,6 +16,10 @@ THOROUGH_ARCHS = QUICK_ARCHS + ["x86_64", "avr", "msp430", "xtensa", "or1k", "mi
 ARCH_PKG = {"riscv": "riscv", "riscv:rvc": "riscv", "arm": "arm", "arm:thumb": "arm"}
 
 
+# operands that are sizes (number of zero bytes to emit), not values encoded in a bit-field
+SKIP_CLASSES = {"Ds", "DZero"}
+
+
 def candidates(archname):
     """[(class index, class name, operand index)] for instruction classes whose syntax takes only
     registers / ints / labels and at least one int"""
@@ -41,6 +45,8 @@ def candidates(archname):
                 kinds = None
                 break
         if not kinds or "i" not in kinds:
+            continue
+        if cls.__name__ in SKIP_CLASSES:
             continue
         for k, kd in enumerate(kinds):
             if kd == "i":
